@@ -54,6 +54,13 @@ def all_pairs():
                     for ls in lay:
                         for ld in lay:
                             yield (geom_spec(kind, dims, ls, loc, 1), geom_spec(kind, dims, ld, loc, 1))
+    # symmetric geometries: equal dims, spacing and origin on every axis (axes cannot be told apart by their coordinates)
+    for dims in [(3, 3), (4, 4), (3, 3, 3)]:
+        lay = list(gu.layouts(len(dims)))
+        for loc in ("cells", "points"):
+            for ls in lay:
+                for ld in lay:
+                    yield (geom_spec("uniform", dims, ls, loc, 2), geom_spec("uniform", dims, ld, loc, 2))
     lay = list(gu.layouts(2))
     for dims in [(3, 4), (2, 2), (4, 2)]:
         for order in "CF":
